@@ -6,7 +6,7 @@ SRC="$1"; NAME="$2"; shift 2
 WT=/tmp/wt-main
 export GOFLAGS=-mod=mod GOPROXY=off
 cd /verif
-git -C $WT checkout -q --detach "$(git -C /repo rev-parse HEAD)" && git -C $WT checkout -q -- . && git -C $WT clean -fdq
+git -C $WT reset -q --hard; git -C $WT checkout -q --detach "$(git -C /repo rev-parse HEAD)" && git -C $WT reset -q --hard && git -C $WT clean -fdq
 OUT=/verif/seeded/$NAME; mkdir -p $OUT
 cp $SRC/SEED/patch.diff $OUT/patch.diff
 demo=$(ls $SRC/*demo*_test.go $SRC/*/*demo*_test.go $SRC/*/*/*demo*_test.go 2>/dev/null | grep -v "/SEED/" | head -1)
@@ -31,4 +31,4 @@ for id in "$@"; do
   [ -f /tmp/evidence_$id.keep ] && mv /tmp/evidence_$id.keep evidence/$id.json   # evidence/ describes the unchanged tree only
 done
 find /verif/replays -name '*.json' -newer $OUT/patch.diff -delete 2>/dev/null
-git -C $WT checkout -q -- . ; git -C $WT clean -fdq
+git -C $WT reset -q --hard ; git -C $WT clean -fdq
